@@ -116,7 +116,7 @@ Fixpoint poll_loop (f : nat) (i : nat) (s : state) : state :=
 Definition poll_task (i : nat) (s : state) : state :=
   match decl_of p i with
   | DEff _ _ _ =>
-      if edone (getn s i) then s
+      if edone (getn s i) || epoll (getn s i) then s          (* finished / not spawned: no task *)
       else poll_loop POLL_FUEL i (updn i (fun n => set_epoll n true) s)
   | _ => s          (* only effects have tasks *)
   end.
